@@ -4,7 +4,7 @@
    (reservoir models 1-4), Model/Redrill.v (WellBores.Calculate redrilling step). *)
 From Coq Require Import QArith Qminmax List ZArith Bool Lia Lqa.
 From Verif Require Import Base.Flat Model.Gradient Model.Redrill Model.Drawdown
-  Proofs.GradientProofs Proofs.RedrillProofs Proofs.DrawdownProofs.
+  Proofs.GradientProofs Proofs.RedrillProofs Proofs.DrawdownProofs Gen.C05Ranges Proofs.C05RangeProofs.
 Import ListNotations.
 Open Scope Q_scope.
 
@@ -64,6 +64,13 @@ Theorem C05_bht_of_input : forall i, input_ok i ->
     d == capped_depth (bi_Ts i) (bi_Tmax i) upper gb (depth_metres (bi_depth_km i)).
 Proof. exact bht_of_input_correct. Qed.
 Print Assumptions C05_bht_of_input.
+
+(* every input inside the ranges the CURRENT source accepts (Gen/C05Ranges.v, regenerated from Reservoir.py on every
+   run) with Tsurf < Tmax satisfies those hypotheses; widening a range beyond them (e.g. Tmax up to the 1000 degC pre-fill
+   of the interface list) breaks this proof *)
+Theorem C05_accepted_inputs : forall i, in_ranges i -> bi_Ts i < bi_Tmax i -> input_ok i.
+Proof. exact ranges_imply_input_ok. Qed.
+Print Assumptions C05_accepted_inputs.
 
 (* the property's first sentence, under the extra hypothesis that the input file has a Reservoir Depth line *)
 Theorem C05_bht_meets_definition_partial : forall i km, input_ok i -> bi_depth_km i = Some km ->
@@ -264,3 +271,12 @@ Example C05_ex_tdp :
   map Qred (rd_T (finish (tdp_series 200 50 (1 # 100) (timevector 10 5)) [5; 5; 5; 5; 5] (1 # 50)))
   = [200; 785 # 4; 200; 785 # 4; 200].
 Proof. repeat split; try discriminate; try lia. Qed.
+
+(* the example input lies inside the generated ranges: hypotheses of C05_accepted_inputs *)
+Example C05_ex_in_ranges : in_ranges C05_ex_input /\ bi_Ts C05_ex_input < bi_Tmax C05_ex_input.
+Proof.
+  split; [|reflexivity]. unfold in_ranges, C05_ex_input. cbn [bi_n bi_Ts bi_Tmax bi_depth_km bi_thick].
+  split. cbn. tauto. split. split; discriminate. split. split; discriminate. split.
+  - intros km H. inversion H; subst. split; discriminate.
+  - intros v [H|[H|[]]]; inversion H; subst; split; discriminate.
+Qed.
